@@ -82,6 +82,9 @@ def runchecks(seed_dir, props):
     if rc != 0:
         print("patch does not apply:", out[-300:]); return 2
     results = {}
+    # the checks rewrite evidence/<id>.json: keep the clean-tree evidence
+    ev_backup = os.path.join("/tmp", "evidence-backup-%d" % os.getpid())
+    shutil.copytree(os.path.join(VERIF, "evidence"), ev_backup)
     try:
         for p in props:
             t0 = time.time()
@@ -100,6 +103,11 @@ def runchecks(seed_dir, props):
     finally:
         sh("git -C %s checkout -- ." % REPO)
         sh("git -C %s clean -fdq pkg" % REPO)
+        shutil.rmtree(os.path.join(VERIF, "evidence"), ignore_errors=True)
+        shutil.copytree(ev_backup, os.path.join(VERIF, "evidence"))
+        shutil.rmtree(ev_backup, ignore_errors=True)
+        # regenerate the translated files for the clean tree
+        sh("%s -repo %s -out %s" % (os.path.join(VERIF, "build", "gengo"), REPO, os.path.join(VERIF, "coq", "gen")))
     print(json.dumps({"seed": os.path.basename(seed_dir), "results": results}, indent=1))
     return 0
 
